@@ -253,11 +253,177 @@ def handleLifecycle (vu : Variant) (case : Nat) (j : Json) : IO Unit := do
     (if endClosed then "" else "unifier-stuck-after-abandoned-rounds")
     (if agree && endClosed then "" else s!"ops {ops} (−1 fail, −4 unify, −5 unify with a cancelled context, else tick ns): after the endpoint worked again for three rounds the breaker reports phase {(robs.getLast?.map (fun o => natOfPhase o.obs.phase))}; steps {(obs ++ robs).map stepInts}; model {(m1 ++ m2).map stepInts}")
 
+
+/-! ### kind "manager": ONE long-lived `unifier.EndpointManager` (subject `manager`) or `unifier.LifecycleUnifier`
+(subject `lifecycle`) taken through a history over several endpoints.
+
+`steps`: three ints per step (op, endpoint, arg): 1 fail, 2 succ, 3 ask, 4 call (ask; if let through, success), 5 tick
+arg ns, 6 orphan sweep (arg = bit mask of the endpoints that source a model), 7 RemoveEndpoint, 8 Clear, 9 look,
+10 ForceEndpointCheck (arg bit 0: the discovery fails, bit 1: the endpoint sources a model), 11 call that fails.
+`obs`: per step the answer (-1 none / 0 refused / 1 let through) and then, for EVERY endpoint, what the instance
+reports about its breaker after the step (phase, failures, successes, half-open admissions).
+
+Agreement: the model manager (`Model.Breaker.Mgr`) gives the same answer and the same reports at every step.
+Property: the history seen by ONE endpoint's breaker — its own fail / succ / ask operations and the ticks, with the
+answers given and the phase reported — is judged by the clause predicates of `Spec.C08`, the same monitor as for the
+single-breaker kinds.  The monitor starts again where the manager may forget the endpoint (RemoveEndpoint, Clear, a
+sweep while the endpoint sources no model) and the report shows a new breaker.  A whole call that was let through is
+two operations of the history (ask, then the outcome); the report is not read in between, so the ask is judged with
+the report that stood before it (an ask does not change whether a breaker counts as closed). -/
+
+structure EP where
+  phase : Nat
+  f : Nat
+  s : Nat
+  h : Nat
+deriving DecidableEq, Inhabited, Repr
+
+def EP.fresh (p : EP) : Bool := p.phase == 0 && p.f == 0 && p.s == 0 && p.h == 0
+def EP.obs (p : EP) (res : Option Bool) : Obs := ⟨res, phaseOfNat p.phase, p.f⟩
+def EP.ints (p : EP) : List Int := [(p.phase : Int), (p.f : Int), (p.s : Int), (p.h : Int)]
+
+def mopOf (op : Int) (e : Nat) (arg : Int) : MOp :=
+  if op == 1 then .fail e else if op == 2 then .succ e else if op == 3 then .ask e else if op == 4 then .call e
+  else if op == 5 then .tick arg.toNat else if op == 6 then .sweep arg.toNat else if op == 7 then .forget e
+  else if op == 8 then .clear else if op == 11 then .callFail e
+  else if op == 10 then
+    (if arg.toNat / 2 % 2 == 0 then .look           -- the endpoint sources no model: "endpoint not found", nothing happens
+     else if arg.toNat % 2 == 1 then .fail e        -- the discovery fails: a failure report, no permission asked
+     else .call e)                                  -- the discovery succeeds: the listing is unified
+  else .look
+
+partial def mopsOfInts : List Int → List MOp
+  | op :: e :: arg :: rest => mopOf op e.toNat arg :: mopsOfInts rest
+  | _ => []
+
+def mopStr : MOp → String
+  | .fail e => s!"f{e}" | .succ e => s!"s{e}" | .ask e => s!"a{e}" | .call e => s!"call{e}" | .callFail e => s!"callfail{e}"
+  | .tick d => s!"t{d / 1000000}ms" | .sweep a => s!"sweep(active-mask {a})" | .forget e => s!"remove{e}" | .clear => "clear" | .look => "look"
+
+def epsOfInts (n : Nat) (l : List Int) : List EP :=
+  (List.range n).map (fun i => ⟨(l.getD (4*i) 0).toNat, (l.getD (4*i+1) 0).toNat, (l.getD (4*i+2) 0).toNat, (l.getD (4*i+3) 0).toNat⟩)
+
+partial def mobsOfInts (n : Nat) (l : List Int) : List (Option Bool × List EP) :=
+  match l with
+  | [] => []
+  | r :: rest => if rest.length < 4 * n then [] else (resOfInt r, epsOfInts n (rest.take (4*n))) :: mobsOfInts n (rest.drop (4*n))
+
+def epOfCB (s : UnifierCB) : EP := ⟨natOfPhase s.state, s.failures, s.successes, s.halfOpen⟩
+
+def mopAsks : MOp → Option Nat
+  | .ask e => some e | .call e => some e | .callFail e => some e | _ => none
+
+/-- Model run: answer and reports per step; was some permission decided within 50 ms of the open duration's end? -/
+def mgrRun (v : Variant) (c : UCfg) : Mgr → List MOp → List (Option Bool × List EP) × Bool
+  | _, [] => ([], false)
+  | m, op :: ops =>
+    let amb := match mopAsks op with
+      | some e => let s := m.get e; s.state == .opened && near (s.lastFailure + c.openDuration) s.now
+      | none => false
+    let r := m.step v c op
+    let (rest, amb') := mgrRun v c r.1 ops
+    ((r.2, r.1.cbs.map epOfCB) :: rest, amb || amb')
+
+/-- May the manager forget endpoint `e` at this step? -/
+def mayForget (op : MOp) (e : Nat) : Bool :=
+  match op with
+  | .forget e' => e' == e
+  | .clear => true
+  | .sweep a => !a.testBit e
+  | _ => false
+
+/-- The operations of endpoint `e`'s breaker contained in one step, with their observations. -/
+def projected (op : MOp) (e : Nat) (res : Option Bool) (prev cur : EP) : List (Op × Obs) :=
+  let two (outcome : Op) : List (Op × Obs) :=
+    if res == some true then [(.ask, prev.obs res), (outcome, cur.obs none)] else [(.ask, cur.obs res)]
+  match op with
+  | .fail e' => if e' == e then [(.fail, cur.obs none)] else []
+  | .succ e' => if e' == e then [(.succ, cur.obs none)] else []
+  | .ask e' => if e' == e then [(.ask, cur.obs res)] else []
+  | .call e' => if e' == e then two .succ else []
+  | .callFail e' => if e' == e then two .fail else []
+  | .tick d => [(.tick d, cur.obs none)]
+  | _ => []
+
+structure EMon where
+  g : Ghost := Ghost.init 0
+  bad : List Bool := noBad
+  prev : EP := ⟨0, 0, 0, 0⟩
+  firstBadStep : Option Nat := none
+  forgot : Bool := false      -- the manager forgot a breaker that had something recorded
+  hist : List (Op × Obs) := []
+
+def EMon.step (P : Params) (mon : EMon) (idx : Nat) (op : MOp) (e : Nat) (res : Option Bool) (cur : EP) : EMon :=
+  let h := projected op e res mon.prev cur
+  let (g', bad') := monitor P mon.g mon.bad h
+  let restart := mayForget op e && cur.fresh
+  let fb := if mon.firstBadStep.isNone && (firstBad bad').isSome then some idx else mon.firstBadStep
+  { g := if restart then Ghost.init g'.now else g', bad := bad', prev := cur, firstBadStep := fb,
+    forgot := mon.forgot || (restart && !mon.prev.fresh), hist := mon.hist ++ h }
+
+def monitorAll (P : Params) (n : Nat) : List EMon → Nat → List (MOp × Option Bool × List EP) → List EMon
+  | mons, _, [] => mons
+  | mons, idx, (op, res, eps) :: rest =>
+    let mons' := (List.range n).map (fun e => ((mons[e]?).getD {}).step P idx op e res ((eps[e]?).getD ⟨0, 0, 0, 0⟩))
+    monitorAll P n mons' (idx + 1) rest
+
+def handleManager (vu : Variant) (case : Nat) (j : Json) : IO Unit := do
+  let subject := jstr (jget j "subject")
+  if jstr (jget j "start_err") != "" then
+    emit case false true "start-error" "" s!"manager/{subject}: {jstr (jget j "start_err")}"; return
+  if jbool (jget j "slow") then
+    emit case true true "trivial" "" "the history did not run in one piece (machine busy); not judged"; return
+  let n := jnat (jget j "endpoints")
+  let cfg := jintList (jget j "cfg")
+  let c : UCfg := ⟨(cfg.getD 0 0).toNat, (cfg.getD 1 0).toNat, cfg.getD 2 0, (cfg.getD 3 0).toNat⟩
+  let P := unifierParams c
+  let ops := mopsOfInts (jintList (jget j "steps"))
+  let impl := mobsOfInts n (jintList (jget j "obs"))
+  let (want, amb) := mgrRun vu c (Mgr.init n 0) ops
+  if amb then
+    emit case true true "trivial" "" "a permission request falls within 50 ms of the end of the open duration; not compared"; return
+  if impl.length != ops.length then
+    emit case false true s!"manager.{subject}" "" s!"{impl.length} observations for {ops.length} steps"; return
+  let agree := decide (impl = want)
+  let firstDiff := ((List.range ops.length).find? (fun i => impl[i]? != want[i]?))
+  let mons := monitorAll P n ((List.range n).map (fun _ => {})) 0 (ops.zip impl)
+  let opened := impl.any (fun (_, eps) => eps.any (fun p => p.phase != 0))
+  let forgot := mons.any (·.forgot)
+  let fl := mons.foldl (fun (acc : Bool × Bool × Bool) m => let f := flagsOf m.hist; (acc.1 || f.denied, acc.2.1 || f.probe, acc.2.2 || f.reclosed)) (false, false, false)
+  let branch := if !opened then "trivial" else
+    s!"manager.{subject}" ++ (if forgot then ".forgot" else "") ++ (if fl.1 then ".hold" else "") ++ (if fl.2.1 then ".probe" else "")
+      ++ (if fl.2.2 then ".reclose" else "") ++ ".open"
+  let cfgStr := s!"failure_threshold={c.failureThreshold} success_threshold={c.successThreshold} open_duration={c.openDuration / 1000000}ms half_open_requests={c.halfOpenRequests}"
+  let showStep (x : Option (Option Bool × List EP)) : String := match x with
+    | some (r, eps) => s!"(answer {r}, reports {eps.map EP.ints})"
+    | none => "-"
+  let opAt (i : Nat) : String := ((ops[i]?).map mopStr).getD "-"
+  let ansAt (i : Nat) : String := match (impl[i]?).map (·.1) with
+    | some (some true) => "let through" | some (some false) => "refused" | _ => "none"
+  let repAt (i e : Nat) : String := match (impl[i]?).bind (·.2[e]?) with
+    | some p => s!"{p.ints}" | none => "-"
+  let diffNote := match firstDiff with
+    | some i => s!"first difference from the model at step {i} ({opAt i}): implementation {showStep impl[i]?}, model {showStep want[i]?}; "
+    | none => ""
+  let histStr := " ".intercalate ((ops.zip impl).map (fun (op, res, _) => mopStr op ++ (match res with | some true => "→through" | some false => "→refused" | none => "")))
+  let modelJson := if agree then Json.null else toJson (want.map (fun (r, eps) => ((match r with | none => (-1 : Int) | some false => 0 | some true => 1) :: (eps.map EP.ints).flatten)))
+  match ((List.range n).zip mons).find? (fun (_, m) => (firstBad m.bad).isSome) with
+  | none =>
+    emit case agree true branch "" (if agree then "" else s!"one {subject} instance, {n} endpoint(s), {cfgStr}: {diffNote}history [{histStr}]") modelJson
+  | some (e, m) =>
+    let k := (firstBad m.bad).getD .holds
+    let at' := m.firstBadStep.getD 0
+    emit case agree false branch s!"manager-{k.name}"
+      s!"one long-lived {subject} instance, {n} endpoint(s), {cfgStr}: the breaker of endpoint {e} violates clause {k.name} at step {at'} ({opAt at'}; answer: {ansAt at'}; reported (phase 0 closed/1 open/2 half-open, failures, successes, half-open admissions) before {if at' == 0 then "[0, 0, 0, 0]" else repAt (at' - 1) e} after {repAt at' e}); {diffNote}history [{histStr}]"
+      modelJson
+
 def handle (vh vu : Variant) (j : Json) : IO Unit := do
   let case := jnat (jget j "case")
   let kind := jstr (jget j "kind")
   if kind == "lifecycle" then
     handleLifecycle vu case j; return
+  if kind == "manager" then
+    handleManager vu case j; return
   let b := jstr (jget j "b")
   match kind with
   | "hist" =>
